@@ -77,7 +77,9 @@ OS_FILEWRITE = {"makedirs", "mkdir", "remove", "unlink", "rename", "replace", "r
                 "symlink", "link", "truncate", "chmod", "chown", "utime", "mkfifo"}
 
 # view-like torch functions: the result aliases the first argument
-TORCH_VIEW_FUNCS = {"transpose", "t", "as_tensor", "from_numpy", "squeeze", "unsqueeze", "reshape", "flatten",
+TORCH_VIEW_FUNCS = {"tensor_split", "hsplit", "vsplit", "dsplit", "view", "T", "mT", "adjoint", "swapaxes", "expand",
+                    "as_strided", "unfold", "take_along_dim", "conj", "resolve_conj",
+                    "transpose", "t", "as_tensor", "from_numpy", "squeeze", "unsqueeze", "reshape", "flatten",
                     "narrow", "select", "diagonal", "real", "imag", "detach", "chunk", "split", "unbind",
                     "view_as_real", "view_as_complex", "movedim", "moveaxis", "swapaxes", "swapdims", "permute",
                     "expand_copy", "ravel", "atleast_1d", "atleast_2d", "atleast_3d", "asarray", "array",
@@ -89,7 +91,7 @@ FRESH_METHODS = {"clone", "tolist", "item", "numel", "size", "dim", "sum", "mean
                  "sqrt", "cos", "sin", "abs", "pow", "mul", "add", "sub", "div", "neg", "matmul", "mm", "mv", "dot",
                  "round", "all", "any", "logsumexp", "sigmoid", "clamp", "roll", "repeat", "prod", "max", "min",
                  "norm", "eq", "ne", "lt", "gt", "le", "ge", "sign", "floor", "ceil", "format", "join", "strip",
-                 "lower", "upper", "replace", "split", "count", "index", "startswith", "endswith", "deepcopy",
+                 "lower", "upper", "replace", "count", "index", "startswith", "endswith", "deepcopy",
                  "log10", "tanh", "softmax", "cumsum", "argmax", "argmin", "nonzero", "unique", "sort", "argsort"}
 # method names with an effect whatever the receiver is
 RNG_METHODS = {"sample", "rsample", "sample_n", "random_", "uniform_", "normal_", "bernoulli_", "exponential_",
@@ -103,6 +105,10 @@ MODULE_CAST_METHODS = {"float", "double", "half", "bfloat16", "type", "to", "cud
 EXT_MUTATORS = {"vector_to_parameters", "copyto", "put", "place", "putmask", "fill_diagonal", "put_along_axis",
                 "clip_grad_norm", "clip_grad_value"}
 STAT_METHODS = {"stat", "lstat", "getmtime", "getatime", "getctime"}
+# methods that hand out uninitialised memory (contents depend on the allocator, i.e. on the history of the process)
+UNINIT_METHODS = {"new_empty", "new_empty_strided", "new", "resize_", "resize", "resize_as_", "resize_as", "set_"}
+# container methods that store their arguments in the receiver
+CONTAINER_MUTATORS = {"append", "extend", "insert", "update", "setdefault", "add", "appendleft", "extendleft", "__setitem__"}
 FILEWRITE_METHODS = {"writerow", "writerows", "writeheader", "write", "writelines", "mkdir", "touch", "unlink",
                      "write_text", "write_bytes", "savefig", "tofile", "dump", "rmdir", "rename"}
 INPLACE_EXTRA = {"__setitem__", "__iadd__", "__isub__", "__imul__", "__itruediv__", "__delitem__"}
@@ -205,6 +211,7 @@ class Translator:
         self.alias_attrs = set()    # attributes that are somewhere assigned a parameter-rooted value (x.a = self.weights)
         self.module_attrs = set()   # attributes that hold an nn.Module of the package (rbm_am, rbm_ph, ...)
         self.set_attrs = set()      # attributes that are somewhere assigned a set
+        self.clock_attrs = set()    # attributes of the Timer callback that hold clock values (start_time, ...)
         self.visitors = {}
         self.any_method = None      # pseudo-nodes, created in load()
         self.any_property = None
@@ -565,8 +572,14 @@ class Translator:
                     changed = v.update_summaries() or changed
             if not changed:
                 break
+        timer_vs = [v for v in visitors if v.in_timer_module() and v.fn.node is not None]
+        for _round in range(6):
+            if not any([v.collect_clock_attrs() for v in timer_vs]):
+                break
         for v in visitors:
             v.emit()
+        for v in timer_vs:
+            v.clock_flow()
         # implicit dunder methods: every function may reach them
         dunders = [f for f in self.fns if f.kind == "function" and f.simple.startswith("__") and f.simple.endswith("__")
                    and f.simple not in ("__init__", "__new__")]
@@ -846,6 +859,109 @@ class FnVisitor:
         for n in self.walk_scope(self.body + self.extra):
             self.visit(n)
 
+    # ------------------------------------------------------------ clock values inside callbacks/timer.py
+    # ClockTimer is only a licence to STORE clock values in the Timer's own attributes and to PRINT them.  Any other flow
+    # of a clock value (a branch that guards anything but prints / own attributes, an argument of another call, a store
+    # into another object, a return value) makes the function an ordinary Clock reader, which every theorem forbids.
+    def in_timer_module(self):
+        return self.fn.module.relpath.replace(os.sep, "/").endswith("callbacks/timer.py")
+
+    def is_clock(self, e):
+        for n in ast.walk(e):
+            if isinstance(n, ast.Name) and n.id in getattr(self, "clock_names", ()):
+                return True
+            if isinstance(n, ast.Attribute):
+                if n.attr in self.tr.clock_attrs:
+                    return True
+                ch = self.tr.attr_chain(n)
+                if ch is not None:
+                    r = self.resolve_name(ch[0], ch[1])
+                    if r is not None and r[0] == "ext" and r[1].split(".")[0] in ("time", "datetime"):
+                        return True
+            if isinstance(n, ast.Name) and isinstance(n.ctx, ast.Load) and n.id not in self.locals:
+                r = self.resolve_name(n.id, [])
+                if r is not None and r[0] == "ext" and r[1].split(".")[0] in ("time", "datetime"):
+                    return True
+        return False
+
+    def is_self_attr(self, t):
+        fn = self.fn
+        return isinstance(t, ast.Attribute) and isinstance(t.value, ast.Name) and fn.cls is not None and fn.params \
+            and t.value.id == fn.params[0] and not fn.is_static
+
+    def collect_clock_attrs(self):
+        changed = False
+        self.clock_names = getattr(self, "clock_names", set())
+        for n in self.walk_scope(self.body):
+            if isinstance(n, (ast.Assign, ast.AugAssign, ast.AnnAssign)) and getattr(n, "value", None) is not None and self.is_clock(n.value):
+                targets = n.targets if isinstance(n, ast.Assign) else [n.target]
+                for t in targets:
+                    for a in ast.walk(t):
+                        if isinstance(a, ast.Name) and isinstance(a.ctx, ast.Store) and a.id not in self.clock_names:
+                            self.clock_names.add(a.id)
+                            changed = True
+                        if isinstance(a, ast.Attribute) and isinstance(a.ctx, ast.Store) and a.attr not in self.tr.clock_attrs:
+                            self.tr.clock_attrs.add(a.attr)
+                            changed = True
+        return changed
+
+    PRINT_LIKE = {"print", "float", "int", "round", "str", "abs", "min", "max", "format", "repr", "divmod", "bool", "len"}
+
+    def harmless_stmt(self, st):
+        """statements allowed under a branch on a clock value: prints, stores into locals / own attributes, nested ifs."""
+        if isinstance(st, ast.Pass):
+            return True
+        if isinstance(st, ast.Expr) and isinstance(st.value, ast.Call) and isinstance(st.value.func, ast.Name) \
+                and st.value.func.id == "print" and "print" not in self.locals:
+            return True
+        if isinstance(st, (ast.Assign, ast.AugAssign, ast.AnnAssign)):
+            targets = st.targets if isinstance(st, ast.Assign) else [st.target]
+            if all(isinstance(t, ast.Name) or self.is_self_attr(t) for t in targets):
+                v = getattr(st, "value", None)
+                return v is None or not any(isinstance(x, ast.Call) and not self.print_like_call(x) for x in ast.walk(v))
+            return False
+        if isinstance(st, ast.If):
+            return all(self.harmless_stmt(x) for x in st.body + st.orelse)
+        return False
+
+    def print_like_call(self, c):
+        f = c.func
+        if isinstance(f, ast.Name):
+            return f.id in self.PRINT_LIKE and f.id not in self.locals
+        if isinstance(f, ast.Attribute):
+            if f.attr == "format":
+                return True
+            ch = self.tr.attr_chain(f)
+            if ch is not None:
+                r = self.resolve_name(ch[0], ch[1])
+                return r is not None and r[0] == "ext" and r[1].split(".")[0] in ("time", "datetime", "math")
+        return False
+
+    def clock_flow(self):
+        fn = self.fn
+
+        def bad(n, why):
+            fn.add("Clock", getattr(n, "lineno", 0), "clock value " + why + " (outside the ClockTimer licence: own attributes and prints)")
+        for n in self.walk_scope(self.body):
+            if isinstance(n, (ast.Assign, ast.AugAssign, ast.AnnAssign)) and getattr(n, "value", None) is not None and self.is_clock(n.value):
+                targets = n.targets if isinstance(n, ast.Assign) else [n.target]
+                if not all(isinstance(t, ast.Name) or self.is_self_attr(t) for t in targets):
+                    bad(n, "stored into another object")
+            elif isinstance(n, (ast.If, ast.While)) and self.is_clock(n.test):
+                if isinstance(n, ast.While) or not all(self.harmless_stmt(x) for x in n.body + n.orelse):
+                    bad(n, "decides a branch that does more than print / update the timer's own attributes")
+            elif isinstance(n, (ast.IfExp, ast.Assert)) and self.is_clock(n.test):
+                bad(n, "decides a conditional expression / assertion")
+            elif isinstance(n, ast.Call) and not self.print_like_call(n):
+                if any(self.is_clock(a) for a in n.args) or any(self.is_clock(k.value) for k in n.keywords):
+                    bad(n, "passed to a call")
+            elif isinstance(n, (ast.Return, ast.Yield, ast.YieldFrom)) and n.value is not None and self.is_clock(n.value):
+                bad(n, "returned")
+            elif isinstance(n, (ast.For, ast.comprehension)) and self.is_clock(n.iter):
+                bad(n, "iterated")
+            elif isinstance(n, ast.Subscript) and self.is_clock(n.slice):
+                bad(n, "used as an index")
+
     def decorators(self, node):
         for d in node.decorator_list:
             e = d.func if isinstance(d, ast.Call) else d
@@ -1080,6 +1196,21 @@ class FnVisitor:
                     self.bind(n.target, n.value)
                 elif isinstance(n, ast.withitem) and n.optional_vars is not None:
                     self.bind(n.optional_vars, n.context_expr)
+                elif isinstance(n, ast.Call) and isinstance(n.func, ast.Attribute) and n.func.attr in CONTAINER_MUTATORS:
+                    # x.append(a) / x.extend(a) / d.update(a) / d.setdefault(k, a): the container now holds a's roots
+                    r = self.args_roots(n)
+                    base = n.func.value
+                    while isinstance(base, ast.Subscript):
+                        base = base.value
+                    if r and isinstance(base, ast.Name):
+                        self.taint.setdefault(base.id, set()).update(r)
+                    elif isinstance(base, ast.Attribute) and base.attr not in ("data", "grad"):
+                        if "PARAM" in r and base.attr not in self.tr.param_attrs:
+                            self.tr.alias_attrs.add(base.attr)
+                        if "MODULE" in r:
+                            self.tr.module_attrs.add(base.attr)
+                elif isinstance(n, ast.Assign) and False:
+                    pass
             if before == self.taint and sbefore == self.settyped:
                 break
 
@@ -1110,6 +1241,15 @@ class FnVisitor:
         return bool(kinds) and kinds == {"container"} and name not in self.fn.all_params
 
     def bind(self, target, value, elementwise=False, aug=False):
+        if isinstance(target, ast.Subscript):
+            base = target.value
+            while isinstance(base, ast.Subscript):
+                base = base.value
+            if isinstance(base, ast.Name):
+                r0 = self.roots(value)
+                if r0:
+                    self.taint.setdefault(base.id, set()).update(r0)      # d[k] = v: the container now holds v's roots
+            return
         if isinstance(target, ast.Name) and not aug:
             self.bind_kinds.setdefault(target.id, set()).add(
                 "container" if (not elementwise and self.is_container_expr(value)) else "other")
@@ -1281,6 +1421,11 @@ class FnVisitor:
             self.fn.callees.add(g)
 
     def visit_attribute(self, n):
+        if isinstance(n.ctx, ast.Load) and n.attr in self.tr.clock_attrs and not self.in_timer_module():
+            self.fn.add("Clock", n.lineno, "reads the Timer's clock attribute ." + n.attr)
+        self._visit_attribute(n)
+
+    def _visit_attribute(self, n):
         # only the outermost attribute of a chain is processed; inner ones are marked
         ch = self.tr.attr_chain(n)
         if getattr(n, "_inner", False):
@@ -1460,6 +1605,12 @@ class FnVisitor:
     def ext_call(self, dotted, call):
         """call of an external function: in-place functions (name ends with _) mutate their arguments."""
         last = dotted.split(".")[-1]
+        if dotted in ("numpy.ndarray", "numpy.recarray") or last in ("empty", "empty_like"):
+            self.fn.add(U("uninitialised-memory"), call.lineno, dotted + "(...) allocates uninitialised memory")
+        if dotted.startswith("torch.") and (last == "Tensor" or last.endswith("Tensor")) and last != "as_tensor":
+            sizes = [a for a in call.args if isinstance(a, ast.Constant) and isinstance(a.value, int) and not isinstance(a.value, bool)]
+            if sizes or len(call.args) >= 2 or (not call.args and not call.keywords and last != "Tensor"):
+                self.fn.add(U("uninitialised-memory"), call.lineno, dotted + "(<sizes>) allocates uninitialised memory")
         if (last.endswith("_") and not last.endswith("__")) or last in EXT_MUTATORS:
             self.mutation(self.args_roots(call), call.lineno, "in-place function %s on a parameter" % dotted)
 
@@ -1500,6 +1651,8 @@ class FnVisitor:
             fn.add("ParamWrite", line, "nn.Module method .%s() rewrites the parameters of a network" % m)
         if m in RESEED_METHODS and not cands:
             fn.add("RngReseed", line, "method ." + m + "()")
+        if m in UNINIT_METHODS and not cands:
+            fn.add(U("uninitialised-memory"), line, "method ." + m + "() returns uninitialised memory")
         if m in STAT_METHODS and not cands:
             fn.add("Clock", line, "method ." + m + "() (file times)")
         if m in FILEWRITE_METHODS and not cands:
